@@ -234,11 +234,15 @@ Definition deploy_interchain_token (t : tm) (l : ledger) (c : tctx) (minter : op
   let '(t2, e2) := add_role (t_self c) t1 (match minter with Some a => a | None => zero32 end) MINTER in
   Some (with_pending t2 (tm_pending t2 + 1), l, [], e1 ++ e2).
 
-(* deploy_token_callback: Ok(token) records the token (unconditionally); Err only emits an event *)
+(* deploy_token_callback: Ok(token) records the token unless one is already recorded (repaired code:
+   a recorded token is never replaced); Err only emits an event *)
 Definition deploy_token_callback (t : tm) (self : bytes) (result : option bytes) : tm * list log :=
   match result with
-  | Some tok => (with_token (with_pending t (tm_pending t - 1)) tok,
-                 [ev self [str "interchain_token_deployed_event"; tm_tid t; tok] []])
+  | Some tok =>
+      if bytes_eqb (tm_token t) [] then
+        (with_token (with_pending t (tm_pending t - 1)) tok,
+         [ev self [str "interchain_token_deployed_event"; tm_tid t; tok] []])
+      else (with_pending t (tm_pending t - 1), [])
   | None => (with_pending t (tm_pending t - 1), [ev self [str "interchain_token_deployment_failed"] []])
   end.
 
